@@ -152,41 +152,12 @@ def run(ctx):
         r1.check(len(tecb.calls(QR + "set_sharding_key")) >= 2, "comment+command", "both the sharding_key comment and SET SHARDING KEY go through set_sharding_key", "set_sharding_key call sites in try_execute_command: %d" % len(tecb.calls(QR + "set_sharding_key")))
     # ---------------- R2 out-of-range SET SHARD refused and rolled back
     r2 = ctx.rule("C06-R2", "SET SHARD to a shard that is not configured is answered with an error and the previous shard is restored", floor=3)
-    hc = ctx.body(HCP, r2)
-    if hc:
-        hsw = switches(hc)
-        cmpE = []
-        for sw in hsw:
-            if not sw.is_bool():
-                continue
-            for o in sw.origins():
-                if o.kind == "bin" and o.what in ("Ge", "Lt", "Gt", "Le"):
-                    a_c = {oo.call.name for oo in origins(hc, o.extra["a"], taint=True) if oo.kind == "call"}
-                    b_c = {oo.call.name for oo in origins(hc, o.extra["b"], taint=True) if oo.kind == "call"}
-                    if "pgcat::pool::ConnectionPool::shards" in a_c | b_c and QR + "shard" in a_c | b_c:
-                        te, fe = sw.bool_edges()
-                        if o.neg:
-                            te, fe = fe, te
-                        # normalise to "out of range" edge
-                        shard_left = QR + "shard" in a_c
-                        oor = te if ((o.what == "Ge" and shard_left) or (o.what == "Le" and not shard_left)) else (fe if ((o.what == "Lt" and shard_left) or (o.what == "Gt" and not shard_left)) else None)
-                        cmpE.append((o.what, shard_left, oor, fe if oor == te else te))
-        if not cmpE or cmpE[0][2] is None:
-            r2.fail("range-check", "handle_custom_protocol does not compare the selected shard with pool.shards() using >= (found %s): shard == shards would be accepted" % [(w, l) for w, l, _, _ in cmpE])
+    from common import set_shard_refusal_findings
+    for key, ok, okmsg, failmsg in set_shard_refusal_findings(F):
+        if ok is None:
+            r2.missing(key)
         else:
-            what, left, oor, inr = cmpE[0]
-            reach_bad = hc.reach([oor[1]])
-            reach_ok = hc.reach([inr[1]])
-            ss = [c for c in hc.calls(QR + "set_shard") if c.block in reach_bad and hc.dominates(oor[1], c.block)]
-            er = [c for c in hc.calls("pgcat::messages::error_response") if c.block in reach_bad and hc.dominates(oor[1], c.block)]
-            okc = [c for c in hc.calls("pgcat::messages::custom_protocol_response_ok") if hc.dominates(inr[1], c.block)]
-            r2.check(bool(ss) and bool(er), "refused", "an out-of-range shard restores the previous shard and sends an error", "out-of-range SET SHARD is not refused (set_shard=%d error=%d)" % (len(ss), len(er)))
-            r2.check(bool(okc) and not [c for c in hc.calls("pgcat::messages::custom_protocol_response_ok") if hc.dominates(oor[1], c.block)], "ok-only-in-range", "SET SHARD is acknowledged only in range", "SET SHARD is acknowledged although out of range")
-            if ss:
-                # the restored value was read before try_execute_command ran
-                tcall = hc.calls(QR + "try_execute_command")
-                src = [o.call for o in origins(hc, ss[0].args[1], taint=True) if o.kind == "call" and o.call.name == QR + "shard"]
-                r2.check(bool(tcall) and bool(src) and all(hc.dominates(s_.block, tcall[0].block) and s_.block != tcall[0].block for s_ in src), "restore-previous", "the restored value is QueryRouter::shard() read before the command was executed", "the restored shard is not the value read before the command")
+            r2.check(ok, key, okmsg, failmsg)
     # ---------------- R3 only servers of the selected shard
     r3 = ctx.rule("C06-R3", "ConnectionPool::get keeps only servers of the requested shard, refuses invalid shard ids and indexes the connection pools by the chosen candidate's own coordinates", floor=4)
     g = ctx.body(GETC, r3)
